@@ -170,7 +170,7 @@ func loadCases(path string) ([]Case, error) {
 // runStream runs corpus + generated (or explicit) cases through implementation, model and oracle.
 func runStream(s Stream, property string, seed int64, n int, thorough bool, gmodel string, corpus []Case, explicit []Case) (*Result, error) {
 	start := time.Now()
-	res := &Result{Stream: s.Name(), Property: property, Seed: seed, Rule: s.Rule(), Histogram: map[string]int{}}
+	res := &Result{Stream: s.Name(), Property: property, Seed: seed, Rule: s.Rule(), Histogram: map[string]int{}, Samples: []Case{}, Failures: []Failure{}, Disagreements: []Disagreement{}}
 	var cases []Case
 	if explicit != nil {
 		cases = explicit
